@@ -129,6 +129,14 @@ PROGS2 = {
 }
 
 
+PROGS3 = {
+    # three producers, each through its own scatter, meeting in front of one gather: a third element can arrive after the
+    # first has gone through while the second is still waiting for its task
+    "union3": lambda a, b, c: a.map(inc).union(b.map(inc), c.map(inc)),
+    "union3.map": lambda a, b, c: a.union(b, c).map(times10),
+}
+
+
 class _CbLoop:
     def __init__(self, log):
         self.log = log
@@ -149,7 +157,13 @@ def local_run(prog, emits, two):
 def precompute_local(prog, two, n):
     if (prog, two, n) in _LOCAL:
         return
-    if two:
+    if two == 3:
+        import itertools
+        seqs = set()
+        for perm in itertools.permutations([("a", 1), ("b", 10), ("c", 100)]):
+            for k in range(4):
+                seqs.add(tuple(perm[:k]))
+    elif two:
         a = [("a", x) for x in [1, 2][:n]]
         b = [("b", x) for x in [10, 20][:n]]
 
@@ -190,7 +204,11 @@ def _local_run2(prog, emits, two):
     from streamz import Stream, RefCounter
     log = []
     counts = {}
-    if two:
+    if two == 3:
+        a, b, c = Stream(), Stream(), Stream()
+        out = PROGS3[prog](a, b, c)
+        srcs = {"a": a, "b": b, "c": c}
+    elif two:
         a, b = Stream(), Stream()
         out = PROGS2[prog](a, b)
         srcs = {"a": a, "b": b}
@@ -256,7 +274,15 @@ class Dask(Scenario):
             rc.eid = x
             scen.rcs[x] = rc
             return [{"ref": rc}]
-        if p["two"]:
+        if p["two"] == 3:
+            self.a = Stream(asynchronous=True, loop=self.ioloop)
+            self.b = Stream(asynchronous=True, loop=self.ioloop)
+            self.c = Stream(asynchronous=True, loop=self.ioloop)
+            out = PROGS3[p["prog"]](self.a.scatter(), self.b.scatter(), self.c.scatter())
+            self.add_producer("a", self.a, [1], mode="await", metadata=md)
+            self.add_producer("b", self.b, [10], mode="await", metadata=md)
+            self.add_producer("c", self.c, [100], mode="await", metadata=md)
+        elif p["two"]:
             self.a = Stream(asynchronous=True, loop=self.ioloop)
             self.b = Stream(asynchronous=True, loop=self.ioloop)
             out = PROGS2[p["prog"]](self.a.scatter(), self.b.scatter())
@@ -313,7 +339,9 @@ class Dask(Scenario):
         want = [e[1] for e in llog if e[0] == "in"]
         got = [e[3] for e in self.log if e[0] == "in"]
         info = dict(emits=emits, dask=got, local=want)
-        total_order = (not p["two"]) or p["prog"].startswith(("zip", "map.zip"))
+        # every source has its own scatter node and the fake's RPCs complete first-in first-out, so elements reach the
+        # gather in emission order and gather hands them on in arrival order: the local sequence, also across producers
+        total_order = True
         if total_order:
             if got != want[:len(got)]:
                 clause = "sequence" if sorted(map(repr, got)) != sorted(map(repr, want[:len(got)])) else "order"
@@ -392,6 +420,10 @@ def plan(ctx):
         jobs.append(((prog, True, 2), 1))
         if T:
             jobs.append(((prog, True, 2), 2))
+    for prog in PROGS3:
+        jobs.append(((prog, 3, 1), 2))
+        if T:
+            jobs.append(((prog, 3, 1), 3))
     return jobs
 
 
